@@ -393,6 +393,14 @@ func c11(p *model.Prog, r *report.Result) {
 				if o == nil || o.Pkg() == nil || o.Pkg().Path() != "io" || (o.Name() != "ReadFull" && o.Name() != "ReadAtLeast") {
 					continue
 				}
+				if o.Name() == "ReadAtLeast" {
+					// only when the minimum is the whole remainder (body + 4)
+					mb, moff := linear(ci.Common().Args[2])
+					mf := model.LoadedField(model.Unwrap(mb))
+					if mb == nil || moff != 4 || mf == nil || mf.Name() != "DataSize" {
+						continue
+					}
+				}
 				if sl, isSl := ci.Common().Args[1].(*ssa.Slice); isSl && sl.High == nil {
 					if k, isK := model.ConstInt(sl.Low); isK && k == 11 {
 						if ld, isLd := sl.X.(*ssa.UnOp); isLd {
